@@ -172,6 +172,9 @@ import re
 
 import numpy as np
 
+import ast
+
+import translate as T
 from harness import common
 from harness.common import REPO, clist, copt
 
@@ -180,6 +183,458 @@ SRC_FILES = [os.path.join(REPO, "src", "onnx_ir", p) for p in
 
 UNKNOWN_GID = 999          # value.graph is a Graph that is not part of the generated tree
 UNKNOWN_NAME = 4999        # name code of a by-name reference that names nothing
+
+
+# =========================================================================== translation of the source (Gen/C18Gen.v)
+# Fail-closed, statement-by-statement translation of the set/stack loops of _extractor.py and of
+# _collect_implicit_usages into Gallina.  Python sets become duplicate-free lists (set_add), the value stack keeps its
+# top at the head, `if c: continue`, `(x := e) is not None`, `x is None` and `x is not None` become matches.  Anything
+# outside the recognised fragment raises translate.Unsupported, which is reported as a broken obligation.
+# coq/theories/C18/GenEquiv.v proves the generated definitions equal to the hand model (Model.find_step / find_loop /
+# collect_external / collect_implicit).  The statements that are not translated are pinned by AST digest (PINS).
+
+
+GRAPH_KINDS = {"ir.AttributeType.GRAPH": "attr_is_graph", "ir.AttributeType.GRAPHS": "attr_is_graphs"}
+COQ_T = {"nodeobj": "node", "val": "nat", "oval": "option nat", "node": "nat", "onode": "option nat", "attr": "attr", "graph": "graph",
+         "gid": "nat"}
+
+
+class _Tr:
+    """state: ordered [(python name, kind)], kind in set|list|stack (all `list nat`); elem: element type of a set when
+    iterated.  Every statement becomes a rebinding of the state variables; a block ends with the state tuple."""
+
+    def __init__(self, state, env, elem=None):
+        self.state = state
+        self.kinds = dict(state)
+        self.env = dict(env)                 # python name -> type tag (locals / parameters)
+        self.elem = elem or {}
+
+    def tup(self):
+        return "(" + ", ".join(n + "_" for n, _ in self.state) + ")"
+
+    # ---------------------------------------------------------------- expressions
+    def expr(self, e, env):
+        if isinstance(e, ast.Name):
+            if e.id in self.kinds:
+                return e.id + "_", self.kinds[e.id]
+            if e.id in env:
+                return e.id + "_", env[e.id]
+            raise T.Unsupported(f"unknown name {e.id}")
+        if isinstance(e, ast.Call) and isinstance(e.func, ast.Attribute) and not e.args and not e.keywords:
+            f = e.func
+            if f.attr == "values" and isinstance(f.value, ast.Attribute) and f.value.attr == "attributes":
+                t, ty = self.expr(f.value.value, env)
+                if ty != "node":
+                    raise T.Unsupported(ast.unparse(e))
+                return f"(nattrs {t})", "attrs"
+            t, ty = self.expr(f.value, env)
+            table = {("is_initializer", "val"): ("isinit", "bool"), ("producer", "val"): ("prod", "onode"),
+                     ("as_graph", "attr"): ("attr_as_graph", "graph"), ("as_graphs", "attr"): ("attr_as_graphs", "graphs")}
+            if (f.attr, ty) in table:
+                fn, rty = table[(f.attr, ty)]
+                return f"({fn} {t})", rty
+            raise T.Unsupported(f"method call {ast.unparse(e)} on {ty}")
+        if isinstance(e, ast.Call) and isinstance(e.func, ast.Name) and e.func.id == "_collect_all_external_values" \
+                and len(e.args) == 2 and not e.keywords:
+            p, tp = self.expr(e.args[0], env)
+            g, tg = self.expr(e.args[1], env)
+            if (tp, tg) != ("gid", "graph"):
+                raise T.Unsupported(ast.unparse(e))
+            return f"(collect {p} {g})", "vals"
+        if isinstance(e, ast.Attribute) and e.attr == "inputs":
+            t, ty = self.expr(e.value, env)
+            if ty == "nodeobj":
+                return f"(n_ins {t})", "ovals"
+            if ty != "node":
+                raise T.Unsupported(ast.unparse(e))
+            return f"(nins {t})", "ovals"
+        if isinstance(e, ast.Call) and isinstance(e.func, ast.Name) and e.func.id == "sorted" and len(e.args) == 1 \
+                and [k.arg for k in e.keywords] == ["key"] and isinstance(e.keywords[0].value, ast.Lambda):
+            # only the order depends on the key: `sorted_by_key` is an arbitrary permutation in the equivalence theorem
+            t, ty = self.expr(e.args[0], env)
+            if ty != "set" or not isinstance(e.args[0], ast.Name):
+                raise T.Unsupported(ast.unparse(e))
+            return f"(sorted_by_key {t})", "set:" + self.elem.get(e.args[0].id, "?")
+        if isinstance(e, ast.Call) and ast.unparse(e.func) == "ir.traversal.RecursiveGraphIterator" \
+                and len(e.args) == 1 and not e.keywords:
+            t, ty = self.expr(e.args[0], env)
+            if ty != "graph":
+                raise T.Unsupported(ast.unparse(e))
+            return f"(rec_nodes_g {t})", "nodeobjs"
+        if isinstance(e, ast.Compare) and len(e.ops) == 1:
+            op, r = e.ops[0], e.comparators[0]
+            if isinstance(op, ast.Eq) and isinstance(e.left, ast.Attribute) and e.left.attr == "type" \
+                    and ast.unparse(r) in GRAPH_KINDS:
+                t, ty = self.expr(e.left.value, env)
+                if ty != "attr":
+                    raise T.Unsupported(ast.unparse(e))
+                return f"({GRAPH_KINDS[ast.unparse(r)]} {t})", "bool"
+            if isinstance(op, ast.Is) and isinstance(e.left, ast.Attribute) and e.left.attr == "graph":
+                a, ta = self.expr(e.left.value, env)
+                b, tb = self.expr(r, env)
+                if (ta, tb) != ("val", "gid"):
+                    raise T.Unsupported(ast.unparse(e))
+                return f"(onat_eqb (owner {a}) (Some {b}))", "bool"
+            if isinstance(op, (ast.In, ast.NotIn)):
+                a, ta = self.expr(e.left, env)
+                b, tb = self.expr(r, env)
+                if ta not in ("val", "node") or tb not in ("set", "roset"):
+                    raise T.Unsupported(f"membership {ast.unparse(e)} : {ta} in {tb}")
+                return (f"(mem {a} {b})" if isinstance(op, ast.In) else f"(negb (mem {a} {b}))"), "bool"
+            raise T.Unsupported(f"comparison {ast.unparse(e)}")
+        if isinstance(e, ast.BoolOp):
+            parts = []
+            for v in e.values:
+                t, ty = self.expr(v, env)
+                if ty != "bool":
+                    raise T.Unsupported(f"non-boolean operand {ast.unparse(v)}")
+                parts.append(t)
+            return "(" + (" && " if isinstance(e.op, ast.And) else " || ").join(parts) + ")", "bool"
+        if isinstance(e, ast.UnaryOp) and isinstance(e.op, ast.Not):
+            t, ty = self.expr(e.operand, env)
+            if ty != "bool":
+                raise T.Unsupported(ast.unparse(e))
+            return f"(negb {t})", "bool"
+        raise T.Unsupported(f"expression {ast.unparse(e)}")
+
+    @staticmethod
+    def is_none_test(e, positive):
+        """`X is None` (positive) / `X is not None`: returns the tested expression or None"""
+        if isinstance(e, ast.Compare) and len(e.ops) == 1 and isinstance(e.comparators[0], ast.Constant) \
+                and e.comparators[0].value is None and isinstance(e.ops[0], ast.Is if positive else ast.IsNot):
+            return e.left
+        return None
+
+    # ---------------------------------------------------------------- statements
+    def block(self, stmts, env):
+        if not stmts:
+            return self.tup()
+        s, rest = stmts[0], stmts[1:]
+        T = self.tup()
+        if isinstance(s, ast.Expr) and isinstance(s.value, ast.Constant) and isinstance(s.value.value, str):
+            return self.block(rest, env)
+        # x.add(e) / x.append(e)
+        if isinstance(s, ast.Expr) and isinstance(s.value, ast.Call) and isinstance(s.value.func, ast.Attribute) \
+                and isinstance(s.value.func.value, ast.Name) and s.value.func.value.id in self.kinds \
+                and len(s.value.args) == 1 and not s.value.keywords:
+            name, meth = s.value.func.value.id, s.value.func.attr
+            kind = self.kinds[name]
+            t, ty = self.expr(s.value.args[0], env)
+            if ty not in ("val", "node"):
+                raise T.Unsupported(f"{ast.unparse(s)}: element of type {ty}")
+            if (meth, kind) == ("add", "set"):
+                new = f"set_add {t} {name}_"
+            elif (meth, kind) == ("append", "stack"):
+                new = f"stack_push {t} {name}_"
+            elif (meth, kind) == ("append", "list"):
+                new = f"list_append {name}_ {t}"
+            else:
+                raise T.Unsupported(f"{ast.unparse(s)} on a {kind}")
+            return f"let {name}_ := {new} in\n  " + self.block(rest, env)
+        # local assignment
+        if isinstance(s, ast.Assign) and len(s.targets) == 1 and isinstance(s.targets[0], ast.Name) \
+                and s.targets[0].id not in self.kinds:
+            t, ty = self.expr(s.value, env)
+            n = s.targets[0].id
+            return f"let {n}_ := {t} in\n  " + self.block(rest, dict(env, **{n: ty}))
+        if isinstance(s, ast.If):
+            # guard: `if c: continue`
+            if len(s.body) == 1 and isinstance(s.body[0], ast.Continue) and not s.orelse:
+                x = self.is_none_test(s.test, True)
+                if x is not None and isinstance(x, ast.Name) and env.get(x.id) in ("oval", "onode"):
+                    inner = "val" if env[x.id] == "oval" else "node"
+                    return (f"match {x.id}_ with\n  | None => {T}\n  | Some {x.id}_ =>\n  "
+                            + self.block(rest, dict(env, **{x.id: inner})) + "\n  end")
+                c, ty = self.expr(s.test, env)
+                if ty != "bool":
+                    raise T.Unsupported(ast.unparse(s.test))
+                return f"if {c} then {T} else\n  " + self.block(rest, env)
+            after = self.block(rest, env)
+            return f"let '{T} :=\n  " + self.if_value(s, env) + f" in\n  {after}"
+        if isinstance(s, ast.For) and not s.orelse and isinstance(s.target, ast.Name):
+            it, ity = self.expr(s.iter, env)
+            if ity == "set":
+                ity = "set:" + self.elem.get(s.iter.id if isinstance(s.iter, ast.Name) else "", "?")
+            if ity == "roset":
+                ity = "set:" + self.elem.get(s.iter.id if isinstance(s.iter, ast.Name) else "", "?")
+            ety = {"nodeobjs": "nodeobj", "ovals": "oval", "attrs": "attr", "vals": "val", "graphs": "graph", "set:node": "node",
+                   "set:val": "val"}.get(ity)
+            if ety is None:
+                raise T.Unsupported(f"iteration over {ast.unparse(s.iter)} : {ity}")
+            x = s.target.id
+            body = self.block(list(s.body), dict(env, **{x: ety}))
+            return (f"let '{T} :=\n  fold_left (fun '{T} ({x}_ : {COQ_T[ety]}) =>\n  {body})\n  {it} {T} in\n  "
+                    + self.block(rest, env))
+        raise T.Unsupported(f"statement {ast.unparse(s)[:120]}")
+
+    def if_value(self, s, env):
+        """value (a state tuple) of an if statement"""
+        T = self.tup()
+        els = self.block(list(s.orelse), env) if s.orelse else T
+        test = s.test
+        # (x := e) is not None
+        x = self.is_none_test(test, False)
+        if x is not None and isinstance(x, ast.NamedExpr) and isinstance(x.target, ast.Name):
+            t, ty = self.expr(x.value, env)
+            if ty not in ("onode", "oval"):
+                raise T.Unsupported(ast.unparse(test))
+            n = x.target.id
+            inner = "node" if ty == "onode" else "val"
+            return (f"match {t} with\n  | Some {n}_ =>\n  " + self.block(list(s.body), dict(env, **{n: inner}))
+                    + f"\n  | None => {els}\n  end")
+        # conjunction containing `x is not None` for an optional x: refine x first
+        conj = test.values if isinstance(test, ast.BoolOp) and isinstance(test.op, ast.And) else [test]
+        for i, cpart in enumerate(conj):
+            y = self.is_none_test(cpart, False)
+            if y is not None and isinstance(y, ast.Name) and env.get(y.id) in ("oval", "onode"):
+                inner = "val" if env[y.id] == "oval" else "node"
+                others = conj[:i] + conj[i + 1:]
+                env2 = dict(env, **{y.id: inner})
+                body = self.block(list(s.body), env2)
+                if others:
+                    parts = []
+                    for o in others:
+                        t, ty = self.expr(o, env2)
+                        if ty != "bool":
+                            raise T.Unsupported(ast.unparse(o))
+                        parts.append(t)
+                    body = f"if {' && '.join(parts)} then\n  {body}\n  else {els}"
+                return f"match {y.id}_ with\n  | Some {y.id}_ =>\n  {body}\n  | None => {els}\n  end"
+        # `x is None or <rest>` for an optional x: the body runs when x is None, else x is refined for <rest>
+        if isinstance(test, ast.BoolOp) and isinstance(test.op, ast.Or) and len(test.values) == 2:
+            y = self.is_none_test(test.values[0], True)
+            if y is not None and isinstance(y, ast.Name) and env.get(y.id) in ("oval", "onode"):
+                inner = "val" if env[y.id] == "oval" else "node"
+                body0 = self.block(list(s.body), env)
+                env2 = dict(env, **{y.id: inner})
+                t, ty = self.expr(test.values[1], env2)
+                if ty != "bool":
+                    raise T.Unsupported(ast.unparse(test))
+                body1 = self.block(list(s.body), env2)
+                return (f"match {y.id}_ with\n  | None =>\n  {body0}\n  | Some {y.id}_ =>\n  if {t} then\n  {body1}\n"
+                        f"  else {els}\n  end")
+        c, ty = self.expr(test, env)
+        if ty != "bool":
+            raise T.Unsupported(ast.unparse(test))
+        return f"if {c} then\n  " + self.block(list(s.body), env) + f"\n  else {els}"
+
+
+def find_function(mod, name):
+    for n in ast.walk(mod):
+        if isinstance(n, ast.FunctionDef) and n.name == name:
+            return n
+    raise T.Unsupported(f"function {name} not found")
+
+
+FIND_STATE = [("initialized_values", "set"), ("all_nodes", "list"), ("value_stack", "stack"),
+              ("visited_nodes", "set"), ("visited_values", "set")]
+
+
+def translate_find_loop(src_text):
+    mod = ast.parse(src_text)
+    fn = find_function(mod, "_find_subgraph_bounded_by_values")
+    whiles = [s for s in fn.body if isinstance(s, ast.While)]
+    if len(whiles) != 1:
+        raise T.Unsupported("expected exactly one while loop")
+    w = whiles[0]
+    if ast.unparse(w.test) != "value_stack" or w.orelse:
+        raise T.Unsupported(f"while header: {ast.unparse(w.test)}")
+    first = w.body[0]
+    if ast.unparse(first) != "value = value_stack.pop()":
+        raise T.Unsupported(f"first statement of the loop: {ast.unparse(first)}")
+    tr = _Tr(FIND_STATE, {"value": "val", "parent_graph": "gid"})
+    body = tr.block(list(w.body[1:]), tr.env)
+    T = tr.tup()
+    return ("(* the body of `while value_stack:` after `value = value_stack.pop()` *)\n"
+            f"Definition gen_find_body (value_ : nat) (st : fstate5) : fstate5 :=\n  let '{T} := st in\n  {body}.\n\n"
+            "(* `while value_stack: value = value_stack.pop(); <body>` with explicit fuel *)\n"
+            "Fixpoint gen_find_loop (fuel : nat) (st : fstate5) : option fstate5 :=\n"
+            "  match fuel with\n  | 0 => None\n  | S fuel' =>\n"
+            f"      let '{T} := st in\n"
+            "      match value_stack_ with\n      | [] => Some st\n"
+            "      | value_ :: value_stack_ =>\n"
+            f"          gen_find_loop fuel' (gen_find_body value_ {T})\n"
+            "      end\n  end.\n")
+
+
+GEN_HEADER = ("(* GENERATED on every run by harness/props/c18.py from /repo/src/onnx_ir/_convenience/_extractor.py and\n"
+              "   analysis/_implicit_usage.py — do not edit.  Statement-by-statement translation; C18/GenEquiv.v proves it\n"
+              "   equal to the hand model the theorems are about. *)\n"
+              "From Coq Require Import List Bool Arith.\nFrom IRV Require Import Base.Exn C18.Model.\n"
+              "Import ListNotations.\n\n")
+
+
+def translate_frontier(src_text):
+    """The two loops after the walk: input_frontier and unspecified_graph_inputs."""
+    fn = find_function(ast.parse(src_text), "_find_subgraph_bounded_by_values")
+    body = list(fn.body)
+    wi = [i for i, s_ in enumerate(body) if isinstance(s_, ast.While)]
+    if len(wi) != 1:
+        raise T.Unsupported("expected exactly one while loop")
+    after = [s_ for s_ in body[wi[0] + 1:]
+             if not (isinstance(s_, ast.Expr) and isinstance(s_.value, ast.Constant))]
+    want = ["input_frontier: set[ir.Value] = set()", None, "unspecified_graph_inputs: list[ir.Value] = []",
+            "inputs_set = set(inputs)", None]
+    if len(after) < 5 or any(w is not None and ast.unparse(a) != w for w, a in zip(want, after)) \
+            or not isinstance(after[1], ast.For) or not isinstance(after[4], ast.For):
+        raise T.Unsupported("frontier validation: unexpected statements after the while loop")
+    t1 = _Tr([("input_frontier", "set")], {"visited_nodes": "roset"}, elem={"visited_nodes": "node"})
+    loop1 = t1.block([after[1]], t1.env)
+    t2 = _Tr([("unspecified_graph_inputs", "list")], {"input_frontier": "set", "inputs_set": "roset"},
+             elem={"input_frontier": "val"})
+    # input_frontier is read-only here but iterated through sorted(): keep it typed as a set
+    t2.kinds = dict(t2.kinds)
+    loop2 = t2.block([after[4]], dict(t2.env))
+    return ("(* input_frontier: values read by a visited node that are not produced by a visited node *)\n"
+            "Definition gen_input_frontier (visited_nodes_ : list nat) : list nat :=\n"
+            f"  let input_frontier_ := [] in\n  let '(input_frontier_) :=\n  {loop1} in\n  input_frontier_.\n\n"
+            "(* unspecified_graph_inputs (a non-empty list raises ValueError) *)\n"
+            "Definition gen_unspecified (sorted_by_key : list nat -> list nat) (input_frontier_ inputs_set_ : list nat)"
+            " : list nat :=\n"
+            f"  let unspecified_graph_inputs_ := [] in\n  let '(unspecified_graph_inputs_) :=\n  {loop2} in\n"
+            "  unspecified_graph_inputs_.\n")
+
+
+def translate_collect_external(src_text):
+    fn = find_function(ast.parse(src_text), "_collect_all_external_values")
+    if fn.decorator_list:
+        raise T.Unsupported("_collect_all_external_values is decorated: " + ", ".join(ast.unparse(d) for d in fn.decorator_list))
+    if [a.arg for a in fn.args.args] != ["parent_graph", "graph"]:
+        raise T.Unsupported("_collect_all_external_values: parameter list changed")
+    body = [s for s in fn.body if not (isinstance(s, ast.Expr) and isinstance(s.value, ast.Constant))]
+    if len(body) != 3 or not isinstance(body[0], ast.AnnAssign) or ast.unparse(body[0].target) != "values" \
+            or ast.unparse(body[0].value) != "set()" or ast.unparse(body[2]) != "return values":
+        raise T.Unsupported("_collect_all_external_values: expected `values = set()`, one loop, `return values`")
+    tr = _Tr([("values", "set")], {"parent_graph": "gid", "graph": "graph"})
+    loop = tr.block([body[1]], tr.env)
+    return ("(* _collect_all_external_values(parent_graph, graph); RecursiveGraphIterator = Model.rec_nodes_g *)\n"
+            "Definition gen_collect_external (owner : nat -> option nat) (parent_graph_ : nat) (graph_ : graph) : list nat :=\n"
+            f"  let values_ := [] in\n  let '(values_) :=\n  {loop} in\n  values_.\n\n")
+
+
+def translate_collect_implicit(src_text):
+    """_collect_implicit_usages: for over node.inputs with a `continue` guard, inner for over reversed(graph_stack)
+    with a `break`, and `implicit_usages[g].add(inp)` (KeyError when g is not a key)."""
+    fn = find_function(ast.parse(src_text), "_collect_implicit_usages")
+    if [a.arg for a in fn.args.args] != ["node", "subgraph", "graph_stack", "implicit_usages"]:
+        raise T.Unsupported("_collect_implicit_usages: parameter list changed")
+    body = [s for s in fn.body if not (isinstance(s, ast.Expr) and isinstance(s.value, ast.Constant))]
+    if len(body) != 1 or not isinstance(body[0], ast.For) or body[0].orelse:
+        raise T.Unsupported("_collect_implicit_usages: expected a single for loop")
+    outer = body[0]
+    if not isinstance(outer.target, ast.Name) or ast.unparse(outer.iter) != "node.inputs":
+        raise T.Unsupported(f"outer loop header: {ast.unparse(outer.target)} in {ast.unparse(outer.iter)}")
+    x = outer.target.id
+
+    def graph_is(e, var_ty):
+        """`A.graph is B` / `B is A.graph` with A the (refined) input -> onat_eqb (owner A) (Some B)"""
+        if not (isinstance(e, ast.Compare) and len(e.ops) == 1 and isinstance(e.ops[0], ast.Is)):
+            raise T.Unsupported(ast.unparse(e))
+        l, r = e.left, e.comparators[0]
+        if isinstance(r, ast.Attribute):
+            l, r = r, l
+        if not (isinstance(l, ast.Attribute) and l.attr == "graph" and isinstance(l.value, ast.Name)
+                and l.value.id == x and isinstance(r, ast.Name) and r.id in var_ty):
+            raise T.Unsupported(ast.unparse(e))
+        return f"onat_eqb (owner {x}_) (Some {r.id}_)"
+    stm = list(outer.body)
+    if len(stm) != 2 or not isinstance(stm[0], ast.If) or not isinstance(stm[1], ast.For):
+        raise T.Unsupported("outer loop body: expected `if ...: continue` and a for loop")
+    g0 = stm[0]
+    if not (len(g0.body) == 1 and isinstance(g0.body[0], ast.Continue) and not g0.orelse
+            and isinstance(g0.test, ast.BoolOp) and isinstance(g0.test.op, ast.Or) and len(g0.test.values) == 2):
+        raise T.Unsupported(f"guard: {ast.unparse(g0)}")
+    none_t = _Tr.is_none_test(g0.test.values[0], True)
+    if not (isinstance(none_t, ast.Name) and none_t.id == x):
+        raise T.Unsupported(f"guard: {ast.unparse(g0.test)}")
+    skip = graph_is(g0.test.values[1], {"subgraph": "gid"})
+    inner = stm[1]
+    if inner.orelse or not isinstance(inner.target, ast.Name) or ast.unparse(inner.iter) != "reversed(graph_stack)":
+        raise T.Unsupported(f"inner loop header: {ast.unparse(inner.iter)}")
+    g = inner.target.id
+    ib = list(inner.body)
+    if len(ib) != 2 or not isinstance(ib[0], ast.If) or ib[0].orelse or len(ib[0].body) != 1 \
+            or not isinstance(ib[0].body[0], ast.Break):
+        raise T.Unsupported("inner loop body: expected `if ...: break` first")
+    brk = graph_is(ib[0].test, {g: "gid"})
+    if ast.unparse(ib[1]) != f"implicit_usages[{g}].add({x})":
+        raise T.Unsupported(f"inner loop body: {ast.unparse(ib[1])}")
+    return ("Definition gen_collect_implicit_usages (owner : nat -> option nat) (node_inputs : list (option nat))\n"
+            "    (subgraph_ : nat) (graph_stack_ : list nat) (implicit_usages_ : usages) : res usages :=\n"
+            f"  py_for_res (fun implicit_usages_ ({x}_ : option nat) =>\n"
+            f"    match {x}_ with\n    | None => Ok implicit_usages_\n    | Some {x}_ =>\n"
+            f"      if {skip} then Ok implicit_usages_ else\n"
+            f"      py_for_break (fun implicit_usages_ ({g}_ : nat) =>\n"
+            f"        if {brk} then None else Some (add_usage {g}_ {x}_ implicit_usages_))\n"
+            "        (rev graph_stack_) implicit_usages_\n    end) node_inputs implicit_usages_.\n")
+
+
+def gen_text(extractor_src, implicit_src):
+    out = [GEN_HEADER, "Section FindGen.\n"
+           "  Variable prod : nat -> option nat.          (* value.producer() *)\n"
+           "  Variable isinit : nat -> bool.              (* value.is_initializer() *)\n"
+           "  Variable nins : nat -> list (option nat).   (* node.inputs *)\n"
+           "  Variable nattrs : nat -> list attr.         (* node.attributes.values() *)\n"
+           "  (* _collect_all_external_values(parent_graph, g) in its iteration order *)\n"
+           "  Variable collect : nat -> graph -> list nat.\n"
+           "  Variable parent_graph_ : nat.\n\n",
+           translate_find_loop(extractor_src), "\n", translate_frontier(extractor_src), "End FindGen.\n\n",
+           translate_collect_external(extractor_src),
+           translate_collect_implicit(implicit_src)]
+    return "".join(out)
+
+
+
+
+EXTRACTOR_SRC = os.path.join(REPO, "src", "onnx_ir", "_convenience", "_extractor.py")
+IMPLICIT_SRC = os.path.join(REPO, "src", "onnx_ir", "analysis", "_implicit_usage.py")
+
+# AST digests (translate.ast_digest: no positions, no docstrings) of the code that is modelled by hand and NOT
+# translated: _find_subgraph_bounded_by_values without its while loop (initialisation, frontier validation, sort),
+# extract, and the two drivers of the capture analysis.  A different digest is a broken obligation ("pin:..."): the
+# hand model has to be re-read against the new code (then re-pin).
+PINS = {
+    "_find_subgraph_bounded_by_values(initialisation, raise, sort, return)": "830b784365b2cddf",
+    "extract": "e5a4e524f4533a51",
+    "_process_node": "672c5d3bd9208649",
+    "analyze_implicit_usage": "613e47a7870bcf03"
+}
+
+
+def _pin_digests() -> dict:
+    ex = ast.parse(open(EXTRACTOR_SRC).read())
+    im = ast.parse(open(IMPLICIT_SRC).read())
+    fb = find_function(ex, "_find_subgraph_bounded_by_values")
+    wi = [i for i, s in enumerate(fb.body) if isinstance(s, ast.While)][0]
+    # not translated: the initialisation before the loop and, after it, everything but the two frontier loops
+    # (set/list initialisations, the raise, the sort by node index, the return)
+    rest = ast.FunctionDef(name=fb.name, args=fb.args,
+                           body=list(fb.body[:wi]) + [s for s in fb.body[wi + 1:] if not isinstance(s, ast.For)],
+                           decorator_list=fb.decorator_list, returns=fb.returns)
+    return {"_find_subgraph_bounded_by_values(initialisation, raise, sort, return)": T.ast_digest(rest),
+            "extract": T.ast_digest(find_function(ex, "extract")),
+            "_process_node": T.ast_digest(find_function(im, "_process_node")),
+            "analyze_implicit_usage": T.ast_digest(find_function(im, "analyze_implicit_usage"))}
+
+
+def generate(ck) -> bool:
+    ok = True
+    try:
+        text = gen_text(open(EXTRACTOR_SRC).read(), open(IMPLICIT_SRC).read())
+        ck.gen("C18Gen", text)
+    except (T.Unsupported, SyntaxError, OSError) as e:
+        ck.gen_failed("C18Gen", e)
+        ok = False
+    try:
+        now = _pin_digests()
+        for k, v in PINS.items():
+            if now.get(k) != v:
+                ck.broken(f"pin:{k}", f"AST digest {now.get(k)} != pinned {v}: hand-modelled code changed")
+                ok = False
+    except (T.Unsupported, SyntaxError, OSError) as e:
+        ck.broken("pin:source", str(e))
+        ok = False
+    return ok
 
 
 # =========================================================================== generator
@@ -1306,6 +1761,7 @@ def run(ck) -> None:
                            "values, random mostly-bounded cuts otherwise) x source kind (Graph/Function/GraphView) x "
                            "by-object/by-name. Non-trivial: extract returned a graph with at least one node, or the "
                            "capture analysis returned a non-empty capture set; distinct by (graph, cut).")
+    generate(ck)
     ck.prove()
     ck.notes.append("all theorems of Property.v are full strength; C18_semantics_nested does not cover a nested graph "
                     "whose output list names a parent-graph value directly (stated as a hypothesis)")
